@@ -33,8 +33,20 @@ set -u
   PYTHONPATH=$wt $PY -m pytest -q -p no:cacheprovider --timeout=900 --continue-on-collection-errors -x --co -q >/dev/null 2>&1
   PYTHONPATH=$wt $PY -m pytest -q -p no:cacheprovider --timeout=900 --continue-on-collection-errors > $log.suite 2>&1
   tail -8 $log.suite
+  # on a heavily loaded machine long tests hit pytest-timeout (900 s): re-run exactly those tests alone, without a limit
+  retried=0
+  for t in $(grep -E "^FAILED .*Timeout" $log.suite | sed 's/^FAILED //; s/ - .*//'); do
+    echo "--- re-running timed-out test alone: $t"
+    if PYTHONPATH=$wt $PY -m pytest -q -p no:cacheprovider --timeout=0 "$t" > $log.retry 2>&1; then
+      echo "    passes without the time limit"; retried=$((retried+1))
+      sed -i "s#^FAILED $t .*#RETRIED-PASSED $t#" $log.suite
+    else
+      tail -5 $log.retry
+    fi
+  done
   failed=$(grep -E "^(FAILED|ERROR)" $log.suite | sed 's/ - .*//' | sort | tr '\n' ' ')
   npass=$(grep -Eo "[0-9]+ passed" $log.suite | tail -1)
+  [ $retried -gt 0 ] && npass="$(( ${npass% passed} + retried )) passed" && echo "($retried timed-out tests pass when run alone without the limit)"
   echo "failed: $failed"
   echo "passed: $npass"
   ok=1
